@@ -386,6 +386,30 @@ fn main() {
     }
 
     for (i, t) in spec.threads.iter().enumerate() {
+        if spec.wrap_ids_before_thread == Some(i) && i > 0 {
+            // wait for the earlier threads' ids, then burn ids until a new thread gets a smaller one
+            let t0 = std::time::Instant::now();
+            while (0..i).any(|k| slot(k, SLOT_TID).load(Ordering::SeqCst) == 0) && t0.elapsed().as_secs() < 20 {
+                std::thread::sleep(std::time::Duration::from_micros(200));
+            }
+            let lowest = (0..i).map(|k| slot(k, SLOT_TID).load(Ordering::SeqCst)).min().unwrap_or(0);
+            let pid_max: u64 = std::fs::read_to_string("/proc/sys/kernel/pid_max").ok().and_then(|s| s.trim().parse().ok()).unwrap_or(u64::MAX);
+            let mut wrapped = false;
+            if pid_max <= 100_000 {
+                for _ in 0..(pid_max + 1000) {
+                    let last = std::thread::Builder::new().stack_size(64 * 1024).spawn(|| gettid() as u64).ok().and_then(|h| h.join().ok()).unwrap_or(u64::MAX);
+                    // stop a little below the earlier threads' ids so that the next ids stay below them
+                    if last + 300 < lowest && last > 300 {
+                        wrapped = true;
+                        break;
+                    }
+                    if t0.elapsed().as_secs() > 40 {
+                        break;
+                    }
+                }
+            }
+            ctl(CTL_WRAPPED).store(if wrapped { 1 } else { 2 }, Ordering::SeqCst);
+        }
         let t = t.clone();
         let b = std::thread::Builder::new().stack_size(256 * 1024);
         let r = b.spawn(move || {
@@ -446,6 +470,26 @@ fn main() {
                         }
                     }
                 }
+                ThreadKind::VforkWaiter { ms } => {
+                    slot(i, SLOT_TID).store(gettid() as u64, Ordering::SeqCst);
+                    slot(i, SLOT_READY).store(1, Ordering::SeqCst);
+                    loop {
+                        unsafe {
+                            // fork semantics (own copy of the address space) + vfork blocking
+                            let pid = libc::syscall(libc::SYS_clone, (libc::CLONE_VFORK | libc::SIGCHLD) as libc::c_ulong, 0usize, 0usize, 0usize, 0usize);
+                            if pid == 0 {
+                                let ts = libc::timespec { tv_sec: (ms / 1000) as libc::time_t, tv_nsec: ((ms % 1000) as i64 * 1_000_000) as _ };
+                                libc::syscall(libc::SYS_nanosleep, &ts as *const libc::timespec, 0usize);
+                                libc::syscall(libc::SYS_exit_group, 0);
+                            } else if pid > 0 {
+                                let mut st = 0;
+                                libc::waitpid(pid as i32, &mut st, 0);
+                            }
+                        }
+                        slot(i, SLOT_HEARTBEAT).fetch_add(1, Ordering::SeqCst);
+                        std::thread::sleep(std::time::Duration::from_micros(300));
+                    }
+                }
                 ThreadKind::Sleeper => {
                     slot(i, SLOT_TID).store(gettid() as u64, Ordering::SeqCst);
                     slot(i, SLOT_READY).store(1, Ordering::SeqCst);
@@ -485,7 +529,21 @@ fn main() {
     }
     loop {
         slot(main_slot, SLOT_HEARTBEAT).fetch_add(1, Ordering::SeqCst);
-        std::thread::sleep(std::time::Duration::from_millis(5));
+        if let Some(ms) = spec.leader_vfork_ms {
+            unsafe {
+                let pid = libc::syscall(libc::SYS_clone, (libc::CLONE_VFORK | libc::SIGCHLD) as libc::c_ulong, 0usize, 0usize, 0usize, 0usize);
+                if pid == 0 {
+                    let ts = libc::timespec { tv_sec: (ms / 1000) as libc::time_t, tv_nsec: ((ms % 1000) as i64 * 1_000_000) as _ };
+                    libc::syscall(libc::SYS_nanosleep, &ts as *const libc::timespec, 0usize);
+                    libc::syscall(libc::SYS_exit_group, 0);
+                } else if pid > 0 {
+                    let mut st = 0;
+                    libc::waitpid(pid as i32, &mut st, 0);
+                }
+            }
+        } else {
+            std::thread::sleep(std::time::Duration::from_millis(5));
+        }
         if ctl(CTL_QUIT).load(Ordering::SeqCst) != 0 || unsafe { libc::getppid() } != orig_ppid {
             std::process::exit(0);
         }
